@@ -43,8 +43,7 @@ def run(chk):
     jobs = [(base + i, {'n': len(c), 'alphabet_paths': c}) for i, c in enumerate(chunks)]
     # run through the same collector with per-job keyword arguments
     from harness import tt
-    pool = tt.get_pool(16)
-    out = pool.map(funobs._job, [('putrb', s, kw) for s, kw in jobs])
+    out = tt.rmap(funobs._job, [('putrb', s, kw) for s, kw in jobs], 16, 1, timeout=600)
     obs = [x for st, o in out if st == 'ok' for x in o]
     for st, o in out:
         if st == 'error':
